@@ -3,7 +3,7 @@ import itertools
 
 MAXB = [1, 2, 3, 10]
 RESETS = ["earliest", "latest", None]
-SINKS = ["sync", "hold", "buffer"]
+SINKS = ["sync", "hold", "buffer", "slow"]
 LOWS = [0, 0, 0, 2, 5]
 
 
